@@ -7,11 +7,18 @@ import types
 
 from vf.cond import cond
 
-from .common import DictLoader, Environment, LiquidError, concrete_int, drive, untraced
+from .common import DictLoader, Environment as _Environment, LiquidError, concrete_int, drive, untraced
 
 import liquid2.builtin.filters.misc as _misc  # noqa: E402
 import liquid2.context as _ctxmod  # noqa: E402
 from liquid2 import CachingDictLoader  # noqa: E402
+
+class Environment(_Environment):
+    """Template sources are concrete here: parsing (also of partials loaded during a render) runs outside the tracer."""
+
+    def parse(self, source):  # type: ignore[no-untyped-def]
+        return untraced(lambda: _Environment.parse(self, source))
+
 
 EXPLANATION = (
     "Histories of operations on shared Environment/Template/loader objects are solver-chosen; the clock is a stub "
@@ -20,7 +27,7 @@ EXPLANATION = (
 )
 OUTSIDE = [
     "thread-level concurrency; real clocks and time zones; strftime on instants outside the 3 stub instants",
-    "histories longer than 2 prior steps + 1 observation; more than the 5 templates listed",
+    "histories longer than 2 prior steps + 1 observation; more than the 7 templates listed",
 ]
 STUBS = (
     "datetime module as seen by liquid2.context and liquid2.builtin.filters.misc := stub whose now()/today() return the harness's current instant",
@@ -55,11 +62,13 @@ SOURCES = {
     "t2": "{% call m %}{% macro m %}M{{ x }}{% endmacro %}{% call m %}{% include 'inc' %}{{ y }}{% for i in a %}{% render 'rp', v: i %}{% endfor %}",
     "t3": "{% extends 'base' %}{% block b %}[{{ x }}{{ block.super }}]{% endblock %}",
     "t4": "{{ 'now' | date: '%d' }}|{{ 'today' | date: '%d' }}|{{ now | date: '%d' }}|{{ today | date: '%d' }}",
+    "t5": "{% macro mm, w %}{% render 'rp', v: w %}{% for i in a %}{% render 'rp', v: i %}{% endfor %}{% endmacro %}{% call mm, x %}{% with q: x %}{% call mm, q %}{% endwith %}",
+    "t6": "{% render 't3', x: x %}|{% render 'base', x: 1 %}|{% for i in a %}{% render 'base', x: i %}{% endfor %}",
     "base": "B{% block b %}p{% endblock %}{% block r %}{{ x }}{% endblock %}E",
     "inc": "{% assign y = x %}{% increment c %}I",
     "rp": "(r{{ v }})",
 }
-NAMES = ["t0", "t1", "t2", "t3", "t4"]
+NAMES = ["t0", "t1", "t2", "t3", "t4", "t5", "t6"]
 
 
 class _Bomb(dict):
@@ -130,11 +139,18 @@ def _disturb(objs, kind: int, name: str, x: int) -> None:
 
 
 def _history_ok(steps: list[tuple[int, int, int]], final: tuple[int, bool, int], deltas: list[int], caching: bool) -> bool:
+    # the final observation, made before the history on objects of its own at the final instant: the
+    # same inputs must give the same outcome afterwards (state kept at class or module level by an
+    # earlier operation would be invisible to a comparison with fresh objects built after it)
+    _NOW[0] = sum(deltas)
+    before = _observe(untraced(lambda: _build(caching)), NAMES[final[0]], final[1], final[2])
     _NOW[0] = 0
     shared = untraced(lambda: _build(caching))
+    edited = False
     for (kind, ti, x), dt in zip(steps, deltas):
         if caching and kind in (6, 7):
             kind = 0  # a caching loader without freshness information legitimately keeps serving the old text (C14)
+        edited = edited or kind in (6, 7)
         _disturb(shared, kind, NAMES[ti], x)
         _NOW[0] += dt
     ti, is_async, x = final
@@ -151,54 +167,62 @@ def _history_ok(steps: list[tuple[int, int, int]], final: tuple[int, bool, int],
 
     fresh = untraced(build_fresh)
     want = _observe(fresh, NAMES[ti], is_async, x)
-    return got == want
+    if got != want:
+        return False
+    if not edited and got != before:
+        return False
+    return True
 
 
 N_KIND = 8
 
 
 @cond(
-    pre=["0 <= k1 < N_KIND", "0 <= t1 < 5", "0 <= x <= 2", "0 <= d1 <= 1"],
+    pre=["0 <= k1 < N_KIND", "0 <= t1 < len(NAMES)", "0 <= x <= 2", "0 <= d1 <= 1"],
     timeout=300,
-    shard={"tf": [0, 1, 2, 3, 4], "is_async": [False, True], "caching": [False, True]},
-    covers="one earlier operation (render, render_async, analyze, a render that fails at a data access, from_string/get_template on the same Environment, configuring another Environment) on any template, then a render of any template after the clock advanced: output equals the same render on freshly built objects at the same instant",
-    bounds="5 templates using counters, cycles, offset: continue, capture, assign, macros, include, extends/block.super, now/today/'now' | date; 8 operation kinds (incl. editing / deleting partials and parents in the loader between renders); data x in 0..2 (earlier step uses 2 - x); clock delta 0..1 days; caching and non-caching loader",
+    shard={"tf": list(range(len(NAMES))), "is_async": [False, True], "caching": [False, True]},
+    covers="one earlier operation (render, render_async, analyze, a render that fails at a data access, from_string/get_template on the same Environment, configuring another Environment) on any template, then a render of any template after the clock advanced: output equals the same render on freshly built objects at the same instant, and (when the loader contents were not edited) the outcome of the same observation made before the history - so state kept at class or module level is observed too",
+    bounds="7 templates using counters, cycles, offset: continue, capture, assign, macros (also rendering partials from a macro body), include, extends/block.super, render of a partial that extends / defines blocks, now/today/'now' | date; 8 operation kinds (incl. editing / deleting partials and parents in the loader between renders); data x in 0..2 (earlier step uses 2 - x); clock delta 0..1 days; caching and non-caching loader",
     stubs=STUBS,
-    grid=lambda: [(tf, a, k, t, 2, 1, c) for tf in range(5) for a in (False, True) for k in range(N_KIND) for t in (0, 4) for c in (False, True)],
+    grid=lambda: [(tf, a, k, t, 2, 1, c) for tf in range(len(NAMES)) for a in (False, True) for k in range(N_KIND) for t in (0, 4, 5) for c in (False, True)],
 )
 def s_hist1(tf: int, is_async: bool, k1: int, t1: int, x: int, d1: int, caching: bool) -> bool:
     x = concrete_int(x, 0, 2)
-    steps = [(concrete_int(k1, 0, N_KIND - 1), concrete_int(t1, 0, 4), 2 - x)]
-    return _history_ok(steps, (tf, is_async, x), [concrete_int(d1, 0, 1)], caching)
+    steps = [(concrete_int(k1, 0, N_KIND - 1), concrete_int(t1, 0, len(NAMES) - 1), 2 - x)]
+    deltas = [concrete_int(d1, 0, 1)]
+    return untraced(lambda: _history_ok(steps, (tf, is_async, x), deltas, caching))  # every input is concrete from here on
 
 
 @cond(
-    pre=["0 <= k1 < N_KIND", "0 <= k2 < N_KIND", "0 <= t2 < 5", "0 <= x <= 2", "0 <= d1 <= 1", "0 <= d2 <= 1"],
+    pre=["0 <= k1 < N_KIND", "0 <= k2 < N_KIND", "0 <= t2 < len(NAMES)", "0 <= x <= 2", "0 <= d1 <= 1", "0 <= d2 <= 1"],
     timeout=1200,
     tiers=("thorough",),
-    shard={"tf": [0, 1, 2, 3, 4], "t1": [0, 1, 2, 3, 4], "is_async": [False, True]},
+    shard={"tf": list(range(len(NAMES))), "t1": list(range(len(NAMES))), "is_async": [False, True]},
     covers="two earlier operations, as s_hist1",
-    bounds="6 x 5 x 6 x 5 histories x 5 observed templates x sync/async x data 0..2 x clock deltas",
+    bounds="8 x 7 x 8 x 7 histories x 7 observed templates x sync/async x data 0..2 x clock deltas",
     stubs=STUBS,
 )
 def s_hist2(tf: int, is_async: bool, t1: int, k1: int, k2: int, t2: int, x: int, d1: int, d2: int) -> bool:
     x = concrete_int(x, 0, 2)
-    steps = [(concrete_int(k1, 0, N_KIND - 1), t1, x), (concrete_int(k2, 0, N_KIND - 1), concrete_int(t2, 0, 4), 2 - x)]
-    return _history_ok(steps, (tf, is_async, x), [concrete_int(d1, 0, 1), concrete_int(d2, 0, 1)], False)
+    steps = [(concrete_int(k1, 0, N_KIND - 1), t1, x), (concrete_int(k2, 0, N_KIND - 1), concrete_int(t2, 0, len(NAMES) - 1), 2 - x)]
+    deltas = [concrete_int(d1, 0, 1), concrete_int(d2, 0, 1)]
+    return untraced(lambda: _history_ok(steps, (tf, is_async, x), deltas, False))
 
 
 @cond(
     pre=["0 <= x <= 2", "6 <= edit <= 7"],
     timeout=200,
-    shard={"tf": [0, 1, 2, 3, 4]},
+    shard={"tf": list(range(len(NAMES)))},
     covers="render T, then the loader's contents change (partials/parents edited or deleted), then render T again: the second render equals a render on fresh objects over the current loader contents (nothing loaded for the first render is remembered by the Template or its nodes)",
-    bounds="5 templates x sync/async for either render x data 0..2 x {edit, delete}; non-caching loader",
+    bounds="7 templates x sync/async for either render x data 0..2 x {edit, delete}; non-caching loader",
     stubs=STUBS,
-    grid=lambda: [(tf, a1, a2, x, e) for tf in range(5) for a1 in (False, True) for a2 in (False, True) for x in (0, 2) for e in (6, 7)],
+    grid=lambda: [(tf, a1, a2, x, e) for tf in range(len(NAMES)) for a1 in (False, True) for a2 in (False, True) for x in (0, 2) for e in (6, 7)],
 )
 def s_edit_between(tf: int, a1: bool, a2: bool, x: int, edit: int) -> bool:
     x = concrete_int(x, 0, 2)
-    return _history_ok([(1 if a1 else 0, tf, x), (concrete_int(edit, 6, 7), tf, x)], (tf, a2, x), [0, 0], False)
+    steps = [(1 if a1 else 0, tf, x), (concrete_int(edit, 6, 7), tf, x)]
+    a2 = bool(a2)
+    return untraced(lambda: _history_ok(steps, (tf, a2, x), [0, 0], False))
 
 
 @cond(
